@@ -31,6 +31,7 @@ func ruleR36() *Rule {
 		Run: func(c *RuleCtx) {
 			r36Writers(c)
 			r36Readers(c)
+			r36HasLocs(c)
 		},
 	}
 }
@@ -413,6 +414,270 @@ func consumesSomewhere(p *Program, fn *ssa.Function, direct map[*ssa.Function]bo
 	for _, cs := range callSites(fn) {
 		if f := staticCallee(cs); f != nil && f != fn && p.InZap(f) && direct[f] {
 			return true
+		}
+	}
+	return false
+}
+
+// R36c HASLOCS-AGREES — the has-locations bit of a posting's frequency word says whether a location record
+// follows for that posting in the location stream; the reader consumes one exactly when the bit is set. In
+// a function that writes both, the bit and the condition under which the location record is written are
+// therefore the same question about the same quantity (the number of locations of THIS hit): either the
+// very same value, or two tests `q > 0` of quantities that are the same by construction (two loads of one
+// field, two len() of one slice, len(s[lo:lo+n]) and n). What the quantity is, is not judged.
+func r36HasLocs(c *RuleCtx) {
+	props := []string{"C01", "C06", "C09"}
+	p := c.p
+	isCoderAdd := func(cs ssa.CallInstruction) bool {
+		f := staticCallee(cs)
+		return f != nil && f.Name() == "Add" && f.Signature.Recv() != nil && isNamed(f.Signature.Recv().Type(), zapPkgPath, "chunkedIntCoder")
+	}
+	// the frequency-word calls of fn: encodeFreqHasLocs(freq, hasLocs)
+	type fsite struct {
+		at    ssa.Instruction // where the word is handed to the frequency coder (or to the helper that does it)
+		has   ssa.Value
+		coder ssa.Value
+		fn    *ssa.Function
+	}
+	var sites []fsite
+	for _, fn := range p.ZapFuncs {
+		for _, cs := range callSites(fn) {
+			g := staticCallee(cs)
+			if g == nil || !namedFn(g, "encodeFreqHasLocs") || len(cs.Common().Args) != 2 {
+				continue
+			}
+			has := cs.Common().Args[1]
+			// the coder this word goes to
+			var coder ssa.Value
+			var at ssa.Instruction = cs
+			for _, cs2 := range callSites(fn) {
+				if !isCoderAdd(cs2) {
+					continue
+				}
+				for _, a := range expandedArgs(cs2.Common()) {
+					if a == cs.Value() {
+						coder, at = cs2.Common().Args[0], cs2
+					}
+				}
+			}
+			if prm, ok := root(has).(*ssa.Parameter); ok && fn.Parent() == nil {
+				// a helper that is told the bit: its callers decide it
+				pi := -1
+				for i, q := range fn.Params {
+					if q == prm {
+						pi = i
+					}
+				}
+				ci := -1
+				if coder != nil {
+					for i, q := range fn.Params {
+						if root(coder) == ssa.Value(q) {
+							ci = i
+						}
+					}
+				}
+				for _, call := range p.callersOf(fn) {
+					if !p.InZap(call.Parent()) || pi >= len(call.Common().Args) {
+						continue
+					}
+					var cc ssa.Value
+					if ci >= 0 && ci < len(call.Common().Args) {
+						cc = call.Common().Args[ci]
+					}
+					sites = append(sites, fsite{call, call.Common().Args[pi], cc, call.Parent()})
+				}
+				continue
+			}
+			sites = append(sites, fsite{at, has, coder, fn})
+		}
+	}
+	n := 0
+	counts := map[string]int{}
+	type sk struct {
+		at  ssa.Instruction
+		has ssa.Value
+	}
+	dup := map[sk]bool{}
+	for _, s := range sites {
+		if dup[sk{s.at, s.has}] {
+			continue
+		}
+		dup[sk{s.at, s.has}] = true
+		fn := s.fn
+		// location records: Add calls on another coder in the same function
+		var locAdds []ssa.CallInstruction
+		for _, cs := range callSites(fn) {
+			if !isCoderAdd(cs) || cs == s.at {
+				continue
+			}
+			if s.coder != nil && sameValue(cs.Common().Args[0], s.coder) {
+				continue
+			}
+			isFreq := false
+			for _, a := range expandedArgs(cs.Common()) {
+				if call, ok := a.(*ssa.Call); ok {
+					if g := call.Call.StaticCallee(); g != nil && namedFn(g, "encodeFreqHasLocs") {
+						isFreq = true
+					}
+				}
+			}
+			if !isFreq {
+				locAdds = append(locAdds, cs)
+			}
+		}
+		if len(locAdds) == 0 {
+			continue // the location record is written elsewhere: not judged here
+		}
+		// the one that comes first: it dominates the others
+		var first ssa.CallInstruction
+		for _, a := range locAdds {
+			all := true
+			for _, b := range locAdds {
+				if a != b && !(a.Block() == b.Block() || a.Block().Dominates(b.Block())) {
+					all = false
+				}
+			}
+			if all {
+				first = a
+				break
+			}
+		}
+		if first == nil {
+			continue
+		}
+		n++
+		direct := controlDeps(fn)
+		// the tests that lie between the word and the record: they guard the record (dominate it) and
+		// not the word; followed upwards through the branches that guard those tests in turn
+		var between []ctrlDep
+		seenDep := map[ctrlDep]bool{}
+		var up func(b *ssa.BasicBlock)
+		up = func(b *ssa.BasicBlock) {
+			for _, d := range direct[b] {
+				if seenDep[d] || !d.Branch.Dominates(first.Block()) || d.Branch == s.at.Block() || d.Branch.Dominates(s.at.Block()) {
+					continue
+				}
+				seenDep[d] = true
+				between = append(between, d)
+				up(d.Branch)
+			}
+		}
+		up(first.Block())
+		var conds []string
+		okAll, any := true, false
+		for _, d := range between {
+			cond := branchCond(d.Branch)
+			if bo, ok := cond.(*ssa.BinOp); ok && bo.Op == token.LSS {
+				if _, isIdx := rangeIndexOf(bo.X); isIdx {
+					continue
+				}
+			}
+			if _, _, isErr := errNilTest(cond); isErr {
+				continue
+			}
+			any = true
+			same := false
+			if root(cond) == root(s.has) {
+				same = d.SuccIdx == 0
+			} else {
+				x1, z1, ok1 := zeroTest(cond)
+				x2, z2, ok2 := zeroTest(root(s.has))
+				if ok1 && ok2 && sameQuantity(x1, x2, 0) {
+					// the record is written on the edge that says "not zero"; the bit is set when "not zero"
+					writtenWhenNonZero := (d.SuccIdx == 0) == !z1
+					same = writtenWhenNonZero && !z2
+				}
+			}
+			if !same {
+				okAll = false
+				conds = append(conds, "the location record is written under "+describeInstr(p, d.Branch.Instrs[len(d.Branch.Instrs)-1])+", the bit is "+valText(p, s.has))
+			}
+		}
+		key := "haslocs/" + funcShortName(fn)
+		counts[key]++
+		if counts[key] > 1 {
+			key += fmt.Sprintf("#%d", counts[key])
+		}
+		if !any {
+			c.okP(props, key, c.pos(s.at), "in "+funcShortName(fn)+" no test lies between the frequency word and the location record of a posting (both are written under the same conditions): not judged further")
+			continue
+		}
+		c.add(statusOf(okAll), key, c.pos(s.at), "in "+funcShortName(fn)+" the has-locations bit of a posting and the condition under which its location record is written are the same test of the same quantity",
+			"the bit and the location record of a posting can disagree: the reader consumes a location record exactly when the bit is set, so it would read the next posting's locations (or skip this one's)", props, conds)
+	}
+	c.add(statusOf(n >= half(2)), "haslocs/sites", "-", "functions that write the frequency word and the location record of a posting are found (pinned tree: writeDicts, mergeTermFreqNormLocs)", fmt.Sprintf("found %d", n), props, nil)
+}
+
+// sameQuantity: two values that are equal by construction.
+func sameQuantity(a, b ssa.Value, depth int) bool {
+	if depth > 6 {
+		return false
+	}
+	a, b = stripConv(root(a)), stripConv(root(b))
+	a, b = root(a), root(b)
+	if a == b {
+		return true
+	}
+	lenArg := func(v ssa.Value) ssa.Value {
+		if call, ok := v.(*ssa.Call); ok {
+			if bi, ok := call.Call.Value.(*ssa.Builtin); ok && bi.Name() == "len" {
+				return call.Call.Args[0]
+			}
+		}
+		return nil
+	}
+	// len(s[lo:lo+n]) is n
+	sliceLen := func(v ssa.Value) ssa.Value {
+		la := lenArg(v)
+		if la == nil {
+			return nil
+		}
+		sl, ok := root(la).(*ssa.Slice)
+		if !ok || sl.High == nil {
+			return nil
+		}
+		hi, ok := sl.High.(*ssa.BinOp)
+		if !ok || hi.Op != token.ADD {
+			return nil
+		}
+		if sl.Low != nil && sameQuantity(hi.X, sl.Low, depth+1) {
+			return hi.Y
+		}
+		if sl.Low != nil && sameQuantity(hi.Y, sl.Low, depth+1) {
+			return hi.X
+		}
+		return nil
+	}
+	if n := sliceLen(a); n != nil && sameQuantity(n, b, depth+1) {
+		return true
+	}
+	if n := sliceLen(b); n != nil && sameQuantity(a, n, depth+1) {
+		return true
+	}
+	switch x := a.(type) {
+	case *ssa.Call:
+		if la, lb := lenArg(a), lenArg(b); la != nil && lb != nil {
+			return sameQuantity(la, lb, depth+1)
+		}
+	case *ssa.Field:
+		if y, ok := b.(*ssa.Field); ok {
+			return x.Field == y.Field && sameQuantity(x.X, y.X, depth+1)
+		}
+	case *ssa.FieldAddr:
+		if y, ok := b.(*ssa.FieldAddr); ok {
+			return x.Field == y.Field && sameQuantity(x.X, y.X, depth+1)
+		}
+	case *ssa.IndexAddr:
+		if y, ok := b.(*ssa.IndexAddr); ok {
+			return sameQuantity(x.X, y.X, depth+1) && sameQuantity(x.Index, y.Index, depth+1)
+		}
+	case *ssa.UnOp:
+		if y, ok := b.(*ssa.UnOp); ok && x.Op == token.MUL && y.Op == token.MUL {
+			// two loads through the same address
+			switch x.X.(type) {
+			case *ssa.FieldAddr, *ssa.IndexAddr:
+				return sameQuantity(x.X, y.X, depth+1)
+			}
 		}
 	}
 	return false
